@@ -531,6 +531,9 @@ func checkConsume(c Case, kind int) *kit.Violation {
 	case kFrom:
 		dest, out = rf, func() []byte { return rf.buf.Bytes() }
 	case kBinary:
+		if c.Pre > 0 {
+			bu.b = []byte(strings.Repeat("old,line\n", c.Pre)) // what an earlier Consume into the same value left there
+		}
 		dest, out = bu, func() []byte { return bu.b }
 	case kTable:
 		var old [][]string
